@@ -14,7 +14,7 @@ pub fn run(cfg: &RunCfg, agg: &Mutex<Agg>) {
     run_indexed(agg, cfg, "tables", 6, |i, out| tables_case(i, out));
     // mul: all 65536 symbols for a set of multipliers per engine
     let engines = EngineKind::all();
-    let per_engine: u64 = if cfg.thorough { 65536 } else { 1024 };
+    let per_engine: u64 = if cfg.thorough { 65536 } else { 4096 };
     let n = per_engine * engines.len() as u64;
     run_indexed(agg, cfg, "mul-all-symbols", crate::count(cfg, n, n), |i, out| {
         let eng = engines[(i % engines.len() as u64) as usize];
